@@ -117,6 +117,8 @@ class NameValuePair(FieldParsableBase):
                 value = value[1:]
                 if value and value[-1:] == '"':
                     value = value[:-1]
+                if '"' in value:  # neither parsed nor composed form knows an escape for a quote inside the string
+                    raise InvalidValue(parser['value'], cls, 'value')
 
         return cls(name, value, quoted), parser.parsed_length
 
@@ -645,6 +647,8 @@ class FieldValueComponentUrl(FieldValueComponentKeyValueBase):
             value = 'mailto:' + (self.value.path or '/')[1:]
             if self.value.query is not None:
                 value += '?' + self.value.query
+            if self.value.fragment is not None:
+                value += '#' + self.value.fragment
         else:
             value = str(self.value)
 
